@@ -58,24 +58,56 @@ class _float(float):
         return super().__hash__() + 1
 
 
+class _bool(int):
+    # Booleans compare and hash equal to the integers 0 and 1. To store a bool and an int (or
+    # float) of the same numerical value separately within a search index (dict), booleans are
+    # wrapped in this class, which is only equal to other wrapped booleans.
+    def __eq__(self, other):
+        return type(other) is _bool and int(self) == int(other)
+
+    def __ne__(self, other):
+        return not self == other
+
+    def __hash__(self):
+        return hash((bool, int(self)))
+
+
+def _encode_key(key):
+    """Wrap keys that would otherwise collide with an equal value of a different type."""
+    if type(key) is float:
+        return _float(key)
+    elif type(key) is bool:
+        return _bool(key)
+    return key
+
+
+def _decode_key(key):
+    """Invert :func:`_encode_key`."""
+    if type(key) is _float:
+        return float(key)
+    elif type(key) is _bool:
+        return bool(key)
+    return key
+
+
 class _TypedSetDefaultDict(dict):
     """Dictionary that is guaranteed to store differently typed values separately.
 
     This is necessary, because the hash value of integers with float type is identical
-    to the same integer as int type, which means they cannot be stored separately in a
-    standard dict.
+    to the same integer as int type (and the hash value of a bool is identical to that
+    of 0 or 1), which means they cannot be stored separately in a standard dict.
 
     """
 
     def keys(self):
         for key in dict.keys(self):
-            yield float(key) if type(key) is _float else key
+            yield _decode_key(key)
 
     __iter__ = keys
 
     def items(self):
         for key, value in dict.items(self):
-            yield float(key) if type(key) is _float else key, value
+            yield _decode_key(key), value
 
     def __missing__(self, key):
         value = set()
@@ -83,13 +115,13 @@ class _TypedSetDefaultDict(dict):
         return value
 
     def __getitem__(self, key):
-        return dict.__getitem__(self, _float(key) if type(key) is float else key)
+        return dict.__getitem__(self, _encode_key(key))
 
     def __setitem__(self, key, value):
-        return dict.__setitem__(self, _float(key) if type(key) is float else key, value)
+        return dict.__setitem__(self, _encode_key(key), value)
 
     def __delitem__(self, key):
-        dict.__delitem__(self, _float(key) if type(key) is float else key)
+        dict.__delitem__(self, _encode_key(key))
 
     def get(self, key, default=None):
         """Get the value for given key.
@@ -106,7 +138,7 @@ class _TypedSetDefaultDict(dict):
         The value for given key.
 
         """
-        return dict.get(self, _float(key) if type(key) is float else key, default)
+        return dict.get(self, _encode_key(key), default)
 
 
 def _find_with_index_operator(index, op, argument):
@@ -371,7 +403,11 @@ class _SearchIndexer(dict):
             if isinstance(value, Number) and float(value).is_integer():
                 result_float = index.get(_float(value), set())
                 result_int = index.get(int(value), set())
-                return result_int.union(result_float)
+                result = result_int.union(result_float)
+                if value in (0, 1):
+                    # Booleans are stored separately, but equal 0 and 1.
+                    result = result.union(index.get(bool(value), set()))
+                return result
             else:
                 return index.get(value, set())
 
